@@ -528,3 +528,119 @@ func ruleUnsignedWindow(c *Ctx, pkgs ...string) {
 var unsignedDiffOK = map[string]string{
 	"pkg/core/statesync.(*Module).Init#p-s.syncInterval": "p >= 2*syncInterval on this path: the function returns above when p < 2*s.syncInterval",
 }
+
+// absent-is-nil: a lookup that answers "no such key" with nil and may legally return an existing *empty* value must be
+// tested with == nil, never by length: `len(v) == 0` turns every stored empty value (blocked-account markers before
+// Faun, voters count, empty contract values) into "not found". Sources: dao.Simple.GetStorageItem and the BoltDB
+// bucket Get. Decided for direct uses and for single-definition locals.
+var absentSources = map[string]bool{
+	"pkg/core/dao.(*Simple).GetStorageItem": true,
+	"github.com/nspcc-dev/bbolt.(*Bucket).Get": true,
+}
+
+// absentLenOK: functions where the record looked up can never be stored empty, so length and nil tests coincide.
+var absentLenOK = map[string]string{
+	"pkg/core/native.(*NEO).getAccountState": "NEO account records are serialised stack items (a struct with balance, height, vote): never empty",
+}
+
+func ruleAbsentIsNil(c *Ctx, pkgs ...string) {
+	want := map[string]bool{}
+	for _, p := range pkgs {
+		want[p] = true
+	}
+	nsrc := 0
+	for _, fd := range c.P.AllFuncDecls() {
+		if !want[pkgRel(fd.Pkg.Types)] || fd.Decl.Body == nil {
+			continue
+		}
+		f := c.P.NewFuncCFG(fd)
+		info := f.Info
+		var fromSource func(e ast.Expr) bool
+		fromSource = func(e ast.Expr) bool {
+			switch x := ast.Unparen(e).(type) {
+			case *ast.CallExpr:
+				cs := f.calleeSym(x)
+				if absentSources[cs] {
+					return true
+				}
+				if (cs == "bytes.Clone" || cs == "slices.Clone") && len(x.Args) == 1 {
+					return fromSource(x.Args[0]) // Clone(nil) is nil
+				}
+			case *ast.Ident:
+				v, ok := info.ObjectOf(x).(*types.Var)
+				if !ok || v.IsField() {
+					return false
+				}
+				// the single assignment to the variable anywhere in the function, closures included (named results
+				// filled inside a transaction callback)
+				var rhs []ast.Expr
+				ast.Inspect(fd.Decl.Body, func(y ast.Node) bool {
+					if as, ok := y.(*ast.AssignStmt); ok && len(as.Lhs) == len(as.Rhs) {
+						for i, l := range as.Lhs {
+							if id, ok := l.(*ast.Ident); ok && info.ObjectOf(id) == v {
+								rhs = append(rhs, as.Rhs[i])
+							}
+						}
+					}
+					return true
+				})
+				if len(rhs) == 1 {
+					if _, isID := ast.Unparen(rhs[0]).(*ast.Ident); !isID {
+						return fromSource(rhs[0])
+					}
+				}
+			}
+			return false
+		}
+		// a nil test of the same value elsewhere in the function: length is then not the presence test
+		nilTested := func(e ast.Expr) bool {
+			id, ok := ast.Unparen(e).(*ast.Ident)
+			if !ok {
+				return false
+			}
+			o := info.ObjectOf(id)
+			found := false
+			ast.Inspect(fd.Decl.Body, func(y ast.Node) bool {
+				if be, ok := y.(*ast.BinaryExpr); ok && (be.Op == token.EQL || be.Op == token.NEQ) {
+					for _, pr := range [][2]ast.Expr{{be.X, be.Y}, {be.Y, be.X}} {
+						if u, ok := ast.Unparen(pr[0]).(*ast.Ident); ok && info.ObjectOf(u) == o && isNilIdent(info, pr[1]) {
+							found = true
+						}
+					}
+				}
+				return true
+			})
+			return found
+		}
+		ast.Inspect(fd.Decl.Body, func(x ast.Node) bool {
+			if call, ok := x.(*ast.CallExpr); ok && absentSources[f.calleeSym(call)] {
+				nsrc++
+			}
+			return true
+		})
+		idx := 0
+		ast.Inspect(fd.Decl.Body, func(x ast.Node) bool {
+			be, ok := x.(*ast.BinaryExpr)
+			if !ok {
+				return true
+			}
+			for _, pair := range [][2]ast.Expr{{be.X, be.Y}, {be.Y, be.X}} {
+				call, ok := ast.Unparen(pair[0]).(*ast.CallExpr)
+				if !ok || len(call.Args) != 1 || f.calleeSym(call) != "builtin.len" || !isZeroConst(info, pair[1]) {
+					continue
+				}
+				if !fromSource(call.Args[0]) || nilTested(call.Args[0]) {
+					continue
+				}
+				idx++
+				if why, ok := absentLenOK[FuncKey(fd.Obj)]; ok {
+					c.OK(fmt.Sprintf("%s.len-test#%d", FuncKey(fd.Obj), idx), c.P.Pos(be.Pos()), "tabled: "+why)
+					continue
+				}
+				c.Fail(fmt.Sprintf("%s.len-test#%d", FuncKey(fd.Obj), idx), c.P.Pos(be.Pos()), fmt.Sprintf("%s decides whether a key exists by `%s`: the lookup returns nil for a missing key and may return an existing empty value, which this test reports as missing", FuncKey(fd.Obj), types.ExprString(be)))
+			}
+			return true
+		})
+	}
+	c.OK("scope."+strings.Join(pkgs, "+"), "", fmt.Sprintf("%d lookups that return nil for a missing key examined; none is tested by length", nsrc))
+}
